@@ -56,6 +56,12 @@ PURE_READ_METHODS = {"strip", "lstrip", "rstrip", "lower", "upper", "replace", "
                      "startswith", "endswith", "find", "index", "count", "isdigit", "isalpha", "format", "search", "match",
                      "group", "groups", "read", "readline", "readlines", "sort", "reverse", "tolist", "flatten", "ravel",
                      "reshape", "astype", "any", "all", "sum", "min", "max", "transpose", "dot", "close", "seek"}
+DANGEROUS_METHODS = {"system": "KProcess", "popen": "KProcess", "Popen": "KProcess", "check_output": "KProcess",
+                     "check_call": "KProcess", "spawnl": "KProcess", "spawnv": "KProcess", "execv": "KProcess", "execl": "KProcess",
+                     "fork": "KProcess", "kill": "KProcess", "unlink": "KOs", "rmdir": "KOs", "rmtree": "KOs", "makedirs": "KOs",
+                     "mkdir": "KOs", "rename": "KOs", "chmod": "KOs", "chown": "KOs", "putenv": "KOs", "urlopen": "KSocket",
+                     "urlretrieve": "KSocket", "import_module": "KImport", "exec_module": "KImport", "load_module": "KImport",
+                     "eval": "KEval", "exec": "KExec"}
 COMP_SCOPES = ("<genexpr>", "<listcomp>", "<setcomp>", "<dictcomp>")
 
 
@@ -765,6 +771,9 @@ class Analysis:
                     tg = self.method_in_class(r[1], r[2], f.attr)
                     E.update(tg if tg else self.call_targets_by_name(f.attr) or ["DYN"])
                     return
+            if f.attr in DANGEROUS_METHODS:
+                # effectful method name on a receiver the analysis cannot resolve (e.g. a module held in a variable)
+                self.add_sink(scope, DANGEROUS_METHODS[f.attr], n, [TEXT] + self.arg_provs(scope, n), False, "?." + f.attr)
             if f.attr == "format" and not isinstance(f.value, ast.Constant):
                 self.add_sink(scope, "KFormat", n, [self.prov(scope, f.value)] + self.arg_provs(scope, n), False, "str.format")
             E.update(self.call_targets_by_name(f.attr))
